@@ -88,9 +88,34 @@ Definition wire_name (pr : proto) (m : mtype) : bytes :=
   | MPong | MPongHb => n_pong | MNext => n_next
   | MConnError => n_connection_error | MKa => n_ka | MData => n_data
   end.
-(* message types each protocol's writer can produce (the arms of HandleWriteEvent) *)
+(* the arms of the two HandleWriteEvent switches, in source order (what the writers can send) *)
+Definition tws_write_arms : list bytes := [n_complete; n_next; n_error; n_connection_ack; n_ping; n_pong].
+Definition gws_write_arms : list bytes := [n_complete; n_data; n_error; n_connection_error; n_ka; n_connection_ack].
+(* message types the model's server sends *)
 Definition tws_server_types : list mtype := [MComplete; MNext; MError; MAck; MPong].
 Definition gws_server_types : list mtype := [MComplete; MData; MError; MConnError; MKa; MAck].
+
+(* Emit of the two event handlers: engine event -> message types written, in source order of
+   the arms (an empty list: the arm writes no message) *)
+Definition ev_completed : bytes := [69;118;101;110;116;84;121;112;101;79;110;83;117;98;115;99;114;105;112;116;105;111;110;67;111;109;112;108;101;116;101;100].
+Definition ev_data : bytes := [69;118;101;110;116;84;121;112;101;79;110;83;117;98;115;99;114;105;112;116;105;111;110;68;97;116;97].
+Definition ev_nonsub_result : bytes := [69;118;101;110;116;84;121;112;101;79;110;78;111;110;83;117;98;115;99;114;105;112;116;105;111;110;69;120;101;99;117;116;105;111;110;82;101;115;117;108;116].
+Definition ev_error : bytes := [69;118;101;110;116;84;121;112;101;79;110;69;114;114;111;114].
+Definition ev_opened : bytes := [69;118;101;110;116;84;121;112;101;79;110;67;111;110;110;101;99;116;105;111;110;79;112;101;110;101;100].
+Definition ev_duplicate : bytes := [69;118;101;110;116;84;121;112;101;79;110;68;117;112;108;105;99;97;116;101;100;83;117;98;115;99;114;105;98;101;114;73;68].
+Definition ev_conn_error : bytes := [69;118;101;110;116;84;121;112;101;79;110;67;111;110;110;101;99;116;105;111;110;69;114;114;111;114].
+Definition emit_table (pr : proto) : list (bytes * list mtype) :=
+  match pr with
+  | TWS => [ (ev_completed, [MComplete]); (ev_data, [MNext]); (ev_nonsub_result, [MNext; MComplete]);
+             (ev_error, [MError]); (ev_opened, []); (ev_duplicate, []) (* closes 4409 instead *) ]
+  | GWS => [ (ev_completed, [MComplete]); (ev_data, [MData]); (ev_nonsub_result, [MData; MComplete]);
+             (ev_error, [MError]); (ev_duplicate, [MError]); (ev_conn_error, [MConnError]) ]
+  end.
+Fixpoint lookup_ev (e : bytes) (t : list (bytes * list mtype)) : list mtype :=
+  match t with
+  | [] => []
+  | (k, v) :: r => if bytes_eqb e k then v else lookup_ev e r
+  end.
 
 (* close codes, by the place that issues them *)
 Definition code_bad_json : N := 4400.          (* tws Handle, json.SyntaxError *)
@@ -100,13 +125,19 @@ Definition code_too_many_inits : N := 4429.    (* tws handleInit *)
 Definition code_unauthorized : N := 4401.      (* tws handleSubscribe before init *)
 Definition code_init_timeout : N := 4408.      (* tws startConnectionInitTimer *)
 Definition code_duplicate_id : N := 4409.      (* tws event handler Emit, duplicated subscriber id *)
-Definition code_internal : N := 1011.          (* CompiledCloseReasonInternalServerError *)
+Definition code_writer_default : N := 4400.    (* tws HandleWriteEvent default arm: no caller reaches it *)
+Definition code_internal : N := 1011.          (* CompiledCloseReasonInternalServerError (ws.StatusInternalServerError) *)
+(* every NewCloseReason in the transport-ws file, by enclosing function, in source order *)
 Definition tws_close_table : list (bytes * list N) :=
-  [ ([72;97;110;100;108;101] (* Handle *), [code_bad_json; code_init_rejected; code_invalid_type]);
-    ([104;97;110;100;108;101;73;110;105;116] (* handleInit *), [code_too_many_inits]);
-    ([104;97;110;100;108;101;83;117;98;115;99;114;105;98;101] (* handleSubscribe *), [code_unauthorized]);
+  [ ([69;109;105;116] (* Emit *), [code_duplicate_id]);
+    ([72;97;110;100;108;101;87;114;105;116;101;69;118;101;110;116] (* HandleWriteEvent *), [code_writer_default]);
+    ([72;97;110;100;108;101] (* Handle *), [code_bad_json; code_init_rejected; code_invalid_type]);
     ([115;116;97;114;116;67;111;110;110;101;99;116;105;111;110;73;110;105;116;84;105;109;101;114] (* startConnectionInitTimer *), [code_init_timeout]);
-    ([69;109;105;116] (* Emit *), [code_duplicate_id]) ].
+    ([104;97;110;100;108;101;73;110;105;116] (* handleInit *), [code_too_many_inits]);
+    ([104;97;110;100;108;101;83;117;98;115;99;114;105;98;101] (* handleSubscribe *), [code_unauthorized]) ].
+(* the legacy file builds no close reason and never disconnects *)
+Definition gws_close_table : list (bytes * list N) := [].
+Definition heartbeat_payload : bytes := [123;34;116;121;112;101;34;58;34;104;101;97;114;116;98;101;97;116;34;125].
 
 (* ---------------------------------------------------------------- state *)
 (* One goroutine started by ExecutorEngine.StartOperation.  [o_cancelled]: its context was
@@ -288,12 +319,12 @@ Definition step (pr : proto) (st : state) (m : input) : state * list output :=
   | EFlush t => exec_flush pr st t
   | ERet t r => exec_return pr st t r
   | EInitTimeout =>
-    match s_timer st with
-    | TRunning =>
+    match pr, s_timer st with
+    | TWS, TRunning =>
       let r := do_close st code_init_timeout in
       let st1 := fst r in
       (mkState (s_closed st1) (s_init st1) TFired (s_hb st1) (s_ops st1) (s_next st1), snd r)
-    | _ => (st, [])
+    | _, _ => (st, [])                (* the legacy handler has no such timer *)
     end
   | ETick =>
     if (0 <? s_hb st) && negb (s_closed st)
